@@ -274,6 +274,8 @@ extern "C" void init_config (const char *config_file)
   CONFIG_INT (__TIME_TO_RESET__) = scan_config_i (config, "ResetDuration", 0, 1800);
   CONFIG_INT (__INHERIT_CHAIN_SIZE__) = scan_config_i (config, "MaxInheritDepth", 0, 30);
   CONFIG_INT (__MAX_EVAL_COST__) = scan_config_i (config, "MaxEvaluationCost", 0, 1000000);
+  if (CONFIG_INT (__MAX_EVAL_COST__) < 1)
+    CONFIG_INT (__MAX_EVAL_COST__) = 1; /* eval_instruction() counts down to zero: a budget below 1 would never expire */
   CONFIG_INT (__RESERVED_MEM_SIZE__) = scan_config_i (config, "ReservedMemorySize", 0, 0); /* reserved for emergent shutdown */
 
   CONFIG_INT (__MAX_ARRAY_SIZE__) = scan_config_i (config, "MaxArraySize", 0, 15000);
